@@ -53,17 +53,33 @@ class C13(EgSpec):
         # the executable premise of C13_eq_is_an_equivalence_on_reachable_states (every union is handed invocations that cover their
         # classes) and the executable part of the invariant eg_inv2, evaluated by the model on the explored histories (machine egc)
         {'name': 'invariant', 'component': 'egs', 'config': 'default', 'quick': 150, 'thorough': 3000, 'gen_extra': []},
+        # old handles stay valid WITHOUT having been looked at: nothing is observed between the operations; at the end every handle is first
+        # canonicalised on its own (alive, idempotent) and the first-asked equality matrix must equal the one of the run observed after every operation
+        {'name': 'lazy', 'component': 'egs', 'config': 'default', 'gen_extra': ['lazy'], 'quick': 150, 'thorough': 3000},
     ]
 
     def model_input(self, stream, case, impl_obs):
         if stream['name'] == 'invariant':
             pc = core.sx_parse(case)
             return core.sx_show(['egc'] + pc[1:])
+        if stream['name'] == 'lazy':
+            return None      # judged on the implementation alone (two runs of the same history, observed and unobserved)
         return case
 
     def evaluate(self, stream, case, impl_obs, model_obs, ctx):
         pc, pi = core.sx_parse(case), core.sx_parse(impl_obs)
         out = []
+        if stream['name'] == 'lazy':
+            cons = field(pi, 'cons')
+            for c in (cons[1:] if cons else []):
+                if c != 'ok':
+                    out.append(('violation', 'stale-handle ' + core.sx_show(c)[:50], 'an old handle is not valid when it is looked at for the first time after the history: %s; asserted: {%s}'
+                                % (core.sx_show(c), '; '.join(describe_history(pc))), {}))
+                    return out
+            st = steps_of(pi)
+            if st and isinstance(st[-1], list) and st[-1] and st[-1][0] == 'err':
+                out.append(('violation', 'panic', 'the history panicked: %s' % core.sx_show(st[-1]), {}))
+            return out
         r = monotone(pc, steps_of(pi))
         if r:
             out.append(('violation', r.split(' at operation')[0][:60], r + '; asserted: {%s}' % '; '.join(describe_history(pc)), {}))
